@@ -55,6 +55,9 @@ class REDPort(Port):
 
     def put(self, packet):
         self.packets_received += 1
+        # per-hop arrival stamp, as in Port.put
+        if self.element_id is not None:
+            packet.perhop_time[self.element_id] = self.env.now
 
         if self.limit_bytes:
             current_queue_size = self.byte_size
